@@ -14,12 +14,12 @@ P = Property('C01', 'other',
              '_SendMoney / _ReceiveMoney whose FX positions absorb the difference) on the target (C07); Market._GenerateTermsLowLevel books the outflow '
              '-DEM on every demander it aggregates (C04); TaxFlow._GenerateEquations books -T on exactly the taxable sectors of the zone, one term each; and the zone lemma: if construction leaves every ledger at LAG_F and every booking step adds '
              'entries that sum to zero, the zone total stays at the sum of the lagged stocks (induction over the steps). That the expression credited to the tax '
-             'receiver is what the payers were debited, dividend, remittance and supplier inflows are not under contract: bounded on solved models, where two topologies are known to fail (F8, F22).',
+             'receiver is what the payers were debited, dividend, remittance and supplier inflows are not under contract: bounded on solved models, where one topology is known to fail (F22: two tax flows in a zone; F8, two dividend payers, was repaired).',
              'contract-based deductive verification: VCs generated from the real AST (pyvc), z3/cvc5; bounded model checks',
              design_ref='DESIGN.md section 6, C01')
 P.trust('contracts and assumptions of C06, C07, C04 (see there)', 'T-STA: the value of a flow term text is the value of the flow variable with its sign')
 P.not_decided.append('TaxFlow._GenerateEquations, FixedMarginBusiness dividends, DepositMarket interest, CentralBank remittance, Market._GenerateMultiSupply supplier inflow, '
-                     'gold purchases: both sides of each flow are booked - bounded on solved models (dyn/C01.py); open findings F8 and F22 live in this part')
+                     'gold purchases: both sides of each flow are booked - bounded on solved models (dyn/C01.py); the open finding F22 lives in this part')
 P.replay_script = 'dyn/C01.py'
 
 for _src, _pat in ((_c06.P, 'AddCashFlow'), (_c07.P, '_GenerateRegisteredCashFlows'), (_c07.P, '_SendMoney'), (_c07.P, '_ReceiveMoney'), (_c04.P, '_GenerateTermsLowLevel')):
@@ -51,7 +51,7 @@ P.lemma('zone_ledger_stays_balanced', _zone_lemma, 'induction over booking steps
 P.bound('ledger', 'dyn/C01.py', 'ledger', 'random economies of every catalogue shape, solved: 30 (quick) / 600 (thorough)',
         'per-currency identity on the solved series: changes in F of all sectors of a zone + FX position = 0 for k >= 2')
 P.bound('catalogue', 'dyn/C01.py', 'catalogue', 'two fixed topologies outside the random generator (two tax flows in a zone; two dividend payers)',
-        'the same identity on the topologies of the known findings F22 and F8')
+        'the same identity on the topologies of the findings F22 (open) and F8 (repaired)')
 
 # ---- TaxFlow._GenerateEquations: every taxable sector of the zone is booked -T, the tax flow collects the terms, the government is credited --------
 from . import C18 as _c18  # noqa  (CurrencyZone.GetSectors / LookupSector, SetEquationRightHandSide)
